@@ -49,6 +49,10 @@ func Do(p Params) *Result {
 
 	extErrs, parseFinishFn := handleExtensionsParseDidStart(&p)
 	if len(extErrs) != 0 {
+		// The phase is abandoned because one extension's start hook failed:
+		// the extensions that were already told it started are told that
+		// (and why) it ended.
+		extErrs = append(extErrs, parseFinishFn(extErrs[0])...)
 		return &Result{
 			Errors: extErrs,
 		}
@@ -78,6 +82,8 @@ func Do(p Params) *Result {
 	// notify extensions about the start of the validation
 	extErrs, validationFinishFn := handleExtensionsValidationDidStart(&p)
 	if len(extErrs) != 0 {
+		// as above: finish the validation phase for those that saw it start
+		extErrs = append(extErrs, validationFinishFn(extErrs)...)
 		return &Result{
 			Errors: extErrs,
 		}
